@@ -46,6 +46,8 @@ def run(rep, tier, seed, replay):
         if line == "closed":
             rep.stats["always-and-descendant-closed"] += 1
             rep.sample({"expr": exprs[k], "verdict": "Always; language closed under descending (all canonical paths)", "fragment": frag[k]})
+            if frag[k].startswith("in"):
+                rep.stats["always-closed-and-in-F09b"] += 1
         elif line.startswith("open"):
             p = line.split()
             q = unhex(p[1])
@@ -60,7 +62,10 @@ def run(rep, tier, seed, replay):
             continue
         rep.stats["always-but-open"] += 1
         inp = {"expr": exprs[k], "path": pp, "descendant": q}
-        f = frag[k]
+        f, rootok = (frag[k].split(" ") + ["root-open"])[:2]
+        if pp in ("", "/") and rootok == "root-ok" and f == "in":
+            rep.violation("oracle", "exhaustive_beneath_root applies (the pattern cannot match the empty path or the bare root with an optional part skipped) but %r is matched and %r is not" % (pp, q), inp, impl="always", fragment=frag[k])
+            continue
         if pp in ("", "/"):
             # the theorem is about matched paths other than "" and "/": their descendants are obtained by
             # appending a separator and a remainder; the descendants of "" and "/" are not of that form
